@@ -150,7 +150,7 @@ def harnesses(tier):
     q = tier == "quick"
     hs = []
     for m, v in (("filter", "function"), ("filter_out", "kw"), ("sort", ""), ("unique", "keys"), ("head", "one"), ("tail", "one"),
-                 ("sort", "ragged"), ("getitem", "one"), ("copy", "one"), ("reverse", "one"), ("drop_na", ""), ("add", "one"), ("extend", "one"), ("mul", "one")):
+                 ("sort", "ragged"), ("getitem", "one"), ("copy", "one"), ("reverse", "one"), ("drop_na", ""), ("add", "one"), ("extend", "one"), ("mul", "one"), ("sample", "one")):
         hs.append(Isolation(LodOp(m, 2, v)))
     for kind in ("semi_join", "anti_join", "left_join", "inner_join", "full_join"):
         hs.append(Isolation(LodJoin(kind, 1, 2, 2)))
